@@ -6,6 +6,10 @@ import ZodbModel.Conn
 namespace Proofs.Conn
 open ZodbModel ZodbModel.Conn
 
+theorem nodup_reverse {l : List Nat} (h : l.Nodup) : l.reverse.Nodup := by
+  rw [List.Nodup, List.pairwise_reverse]
+  exact h.imp (fun h => Ne.symm h)
+
 /-! ### maps -/
 namespace Map
 variable {α : Type}
